@@ -192,6 +192,9 @@ class Sym:
                 self.generic_visit(n)
                 return sym.simplify(n)
 
+            def visit_NamedExpr(self, n):
+                return self.visit(n.value)  # `(x := e)` has the value of e
+
         return T().visit(copy.deepcopy(expr))
 
     def text(self, expr, env):
@@ -827,15 +830,20 @@ def check_run_record_replay(ck, R):
                   "memoize call")
     mn = rl.nodes_all(mem)
     tr = [t for t in rl.stmts(ast.Try) if any(rl.inside(body, b) for b in t.body) and t.handlers][0]
+    def caught(h):
+        if h.type is None:
+            return []
+        return [A.norm(t) for t in (h.type.elts if isinstance(h.type, ast.Tuple) else [h.type])]
+
     for h in tr.handlers:
-        tn = A.norm(h.type) if h.type is not None else ""
         hn = [n.id for n in cfg.nodes if n.kind == "except" and n.ast is h]
-        if tn in ("NonMemoizedException", "RemoteCallException"):
-            reach = cfg.reach(hn)
-            okh = not (set(mn) & reach) and cfg.exit not in reach
-            ck.ob(R, rl.key(h, "never-recorded"), okh, "%s is re-raised and never memoized" % tn if okh else
-                  "%s can reach memoize or a normal return: it is recorded / swallowed" % tn, rl.where(h))
-    names = [A.norm(h.type) for h in tr.handlers if h.type is not None]
+        for tn in caught(h):
+            if tn in ("NonMemoizedException", "RemoteCallException"):
+                reach = cfg.reach(hn)
+                okh = not (set(mn) & reach) and cfg.exit not in reach
+                ck.ob(R, rl.key(h, "never-recorded"), okh, "%s is re-raised and never memoized" % tn if okh else
+                      "%s can reach memoize or a normal return: it is recorded / swallowed" % tn, rl.where(h))
+    names = [t for h in tr.handlers for t in caught(h)]
     for need in ("NonMemoizedException", "RemoteCallException"):
         ck.ob(R, rl.key(tr, "handler-" + need), need in names, "%s has its own handler" % need if need in names else
               "no dedicated handler for %s: it is memoized like an ordinary exception" % need, rl.where(tr))
@@ -930,7 +938,9 @@ def check_replay(ck, R):
                "to_exception, which never raises (every may-raise step is covered by a handler that returns self)", 5)
     pe = FA(ck, "runner.process_existing_memento")
     rr = pe.one(pe.calls("read_result"), "read_result call")
-    okr = [A.norm(a) for a in rr.args] == ["existing_memento"]
+    pe_params = pe.fi.params
+    rr_arg = A.arg_or_kw(rr, 0, "memento")
+    okr = rr_arg is not None and len(pe_params) >= 2 and pe.xnorm(rr_arg) == pe_params[1] and len(rr.args) + len(rr.keywords) == 1
     ck.ob(R, pe.key(rr, "reads-own-memento"), okr, "the value is read for the memento at hand" if okr else
           "read_result is not called with the existing memento", pe.where(rr))
     # what the function returns, per path class: ExistingMementoResult(result=<r>, valid_result=<v>) over the symbolic store
@@ -1048,9 +1058,13 @@ def check_replay(ck, R):
     # from_exception keeps message and qualified class name
     fe = FA(ck, "exception.MementoException.from_exception")
     mk = fe.one(fe.calls("MementoException"), "MementoException(...) in from_exception")
-    d0 = fe.deps(mk.args[0]) if mk.args else set()
-    okn = "getattr:__module__" in d0 | {"getattr:__module__" if any("__module__" in x for x in d0) else ""} and any("__qualname__" in x for x in d0) \
-        and len(mk.args) > 1 and A.norm(mk.args[1]) == "str(e)"
+    a_name, a_msg = A.arg_or_kw(mk, 0, "exception_name"), A.arg_or_kw(mk, 1, "message")
+    exc_param = (fe.fi.params or ["e"])[0]
+    d0 = fe.deps(a_name) if a_name is not None else set()
+    okn = "getattr:__module__" in d0 | {"getattr:__module__" if any("__module__" in x for x in d0) else ""} and any("__qualname__" in x for x in d0)
+    # the message is str(<the exception>) in any spelling (str(), f-string, format)
+    msg_parts = A.str_parts(fe.expand(a_msg)) if a_msg is not None else None
+    okn = okn and msg_parts is not None and len(msg_parts) == 1 and msg_parts[0][0] == "expr" and A.norm(msg_parts[0][1]) == exc_param
     ck.ob(R, fe.key(mk, "records-class-and-message"), okn, "the exception's module, qualified class name and message are recorded" if okn else
           "from_exception does not record module:qualname and str(e)", fe.where(mk))
 
@@ -1082,15 +1096,23 @@ def check_exception_surface(ck, R):
     ck.ob(R, enc.key(None, "exception-fields"), okk, "stored exceptions are read with the fields they are written with %s" % sorted(wk) if okk else
           "stored exception fields differ: written %s, read %s" % (sorted(wk), sorted(rk)), enc.where())
     ctor = ld.one(ld.calls("MementoException"), "MementoException(...) in load")
-    order = [A.const_str(a.slice) if isinstance(a, ast.Subscript) else None for a in ctor.args]
-    oko = order == ["exception_name", "message", "stack_trace"]
+    want_order = ["exception_name", "message", "stack_trace"]
+    order = []
+    for i, nm in enumerate(want_order):
+        a = A.arg_or_kw(ctor, i, nm)
+        a = ld.expand(a) if a is not None else None
+        order.append(A.const_str(a.slice) if isinstance(a, ast.Subscript) else None)
+    oko = order == want_order
     ck.ob(R, ld.key(ctor, "field-order"), oko, "name, message and stack trace are restored in their positions" if oko else
           "MementoException is rebuilt with fields in the wrong positions: %s" % order, ld.where(ctor))
-    msg = [k for d in [n for n in A.walk_body(enc.node) if isinstance(n, ast.Dict)] for k, v in zip(d.keys, d.values) if A.const_str(k) == "message" and A.norm(v) == "obj.message"]
+    enc_obj = (enc.fi.params + ["obj", "obj"])[1]
+    msg = [k for d in [n for n in A.walk_body(enc.node) if isinstance(n, ast.Dict)] for k, v in zip(d.keys, d.values)
+           if A.const_str(k) == "message" and enc.nodes(v) and enc.xnorm(v) == enc_obj + ".message"]
     ck.ob(R, enc.key(None, "message-preserved"), bool(msg), "the original message is stored" if msg else "the stored exception does not keep obj.message", enc.where())
     vp = FA(ck, "storage_base.DefaultCodec.ValuePickleStrategy.encode")
     vl = FA(ck, "storage_base.DefaultCodec.ValuePickleStrategy.load")
-    okp = any(A.call_dotted(c) == "pickle.dumps" and [A.norm(a) for a in c.args] == ["obj"] for c in vp.calls()) and \
+    vp_obj = (vp.fi.params + ["obj", "obj"])[1]
+    okp = any(A.call_dotted(c) == "pickle.dumps" and c.args and vp.xnorm(c.args[0]) == vp_obj for c in vp.calls()) and \
         any(A.call_dotted(c) == "pickle.loads" for c in vl.calls()) and all(("call:dumps" in vp.deps(r.value)) for r in vp.returns() if r.value is not None)
     ck.ob(R, vp.key(None, "pickle-pair"), okp, "values are stored with pickle.dumps(obj) and read with pickle.loads" if okp else
           "the value strategy no longer pairs pickle.dumps(obj) with pickle.loads", vp.where())
